@@ -3,7 +3,6 @@
 from __future__ import annotations
 
 import dataclasses
-import math
 
 import numpy as np
 
@@ -36,7 +35,10 @@ ASSUMPTIONS = [
     "clearance', the clearance constant is 0.005 m; tolerance 1e-5 m",
     "kinematics tolerance 1e-5 (xpos, xquat up to sign, site_xpos, geom_xpos), float32 chain of <= 10 bodies",
     "gait: frequency >= 0 only (negative frequencies are not a gait frequency; excluded), phase inputs in "
-    "[-pi, pi]; range tolerance 1e-6 around float32(pi); half-cycle tolerance 1e-4; per-step increment "
+    "[-pi, pi]; range tolerance 1e-6 around float32(pi); half-cycle tolerance 1e-4 for a single step from coherent "
+    "phases and 1e-4 + 1e-6*n after n steps of an episode (the two phases are separate float32 accumulators; measured "
+    "drift of the unchanged code is up to 2.4e-7 per step and saturates below 1e-3 over 1e6 steps; the maximum seen "
+    "is recorded in the evidence notes); per-step increment "
     "tolerance 5e-6 + 8*eps32*(|increment| + 2*pi) against 2*pi*f*dt evaluated in float64 from the float32 f, dt",
     "foot height tolerance 2e-6*max(h, 1e-3) (float32 evaluation of a cubic), swing height >= 0 only",
     "locomotion command: an exactly-zero command is accepted when zero_command_probability > 0 (documented "
@@ -64,10 +66,11 @@ CUSTOM_LOCO = dict(lin_vel_x_range=(0.5, 1.5), lin_vel_y_range=(-0.4, -0.1), ang
 
 
 def units(tier):
-    u = [{"name": "gait_grid", "timeout": 900}, {"name": "gait_history", "timeout": 1200},
-         {"name": "foot_height", "timeout": 900}, {"name": "randomize_default", "timeout": 1200},
-         {"name": "randomize_custom", "timeout": 1200}, {"name": "command", "timeout": 1200},
-         {"name": "standing_initial", "timeout": 1800}]
+    # generous watchdogs: the units take 5-60 s each on an idle machine, but the box is shared
+    u = [{"name": "gait_grid", "timeout": 2400}, {"name": "gait_history", "timeout": 2400},
+         {"name": "foot_height", "timeout": 2400}, {"name": "randomize_default", "timeout": 2400},
+         {"name": "randomize_custom", "timeout": 2400}, {"name": "command", "timeout": 2400},
+         {"name": "standing_initial", "timeout": 3600}]
     if tier == "thorough":
         u += [{"name": "standing_rollout", "timeout": 3600}, {"name": "standing_custom", "timeout": 3600},
               {"name": "loco_default", "timeout": 3600}, {"name": "loco_custom", "timeout": 3600},
@@ -324,9 +327,14 @@ def _inc_tol(inc):
 
 def judge_phase_steps(ctx, where, prev, nxt, f32, dt32, keys=("gait-phase-out-of-range",
                                                              "gait-phases-not-half-cycle-apart",
-                                                             "gait-phase-increment-wrong"), detail=None):
+                                                             "gait-phase-increment-wrong"), detail=None,
+                      history=False):
     """prev, nxt: [..., 2] phases before/after one control step (float32 values); f32, dt32 scalars.
 
+    history=True: the rows are consecutive steps 1..n of one episode that started half a cycle apart; the two
+    phases are stored and advanced separately in float32, each step rounds each of them independently (up to
+    half an ulp of a value in [2, 8), 2.4e-7 .. 4.8e-7, systematically in one direction while a phase stays in
+    one binade), so the half-cycle tolerance grows by 1e-6 per step on top of 1e-4.
     Returns (n_wraps, max_abs_increment_error, max_half_cycle_deviation)."""
     prev = np.asarray(prev, np.float64).reshape(-1, 2)
     nxt = np.asarray(nxt, np.float64).reshape(-1, 2)
@@ -339,9 +347,11 @@ def judge_phase_steps(ctx, where, prev, nxt, f32, dt32, keys=("gait-phase-out-of
         ctx.violation(keys[0], dict(det, step=i, before=prev[i], after=nxt[i], bound=PI32))
     dev = np.abs(_wrap(nxt[:, 1] - nxt[:, 0] - np.pi))
     dev = np.where(np.isfinite(dev), dev, np.inf)
-    if (dev > 1e-4).any():
-        i = int(np.argmax(dev > 1e-4))
-        ctx.violation(keys[1], dict(det, step=i, before=prev[i], after=nxt[i], deviation_from_pi=dev[i]))
+    htol = 1e-4 + 1e-6 * (np.arange(1, len(nxt) + 1) if history else 1.0)
+    if (dev > htol).any():
+        i = int(np.argmax(dev > htol))
+        ctx.violation(keys[1], dict(det, step=i, before=prev[i], after=nxt[i], deviation_from_pi=dev[i],
+                                    tol=float(np.broadcast_to(htol, dev.shape)[i])))
     err = np.abs(_wrap(nxt - prev - inc))
     err = np.where(np.isfinite(err), err, np.inf)
     tol = _inc_tol(inc)
@@ -469,7 +479,7 @@ def u_gait_history(ctx):
         for b in range(B):
             prev = np.concatenate([S[b:b + 1], H[b, :-1]], axis=0)
             w, e, d = judge_phase_steps(ctx, f"history/{tag}", prev, H[b], F[b], D[b],
-                                        detail={"start": S[b], "N": N})
+                                        detail={"start": S[b], "N": N}, history=True)
             worst_inc, worst_dev = max(worst_inc, e), max(worst_dev, d)
             ctx.monitor("history_wraps_observed", w)
             ctx.monitor("history_steps", N)
@@ -872,7 +882,7 @@ def judge_rollout(ctx, task, cname, env, s0, hist, K, T, max_foot_height=None, k
         # the frequency is an episode constant: judge against the frequency the episode started with
         w, e, d = judge_phase_steps(ctx, where, prev, PH[k], np.float32(f0[k]), dt32, keys=keys3,
                                     detail={"sample": k, "control_dt": float(dt32), "frame_skip": env.frame_skip,
-                                            "physics_dt": float(mj.opt.timestep)})
+                                            "physics_dt": float(mj.opt.timestep)}, history=True)
         ctx.monitor("rollout_control_steps", T)
         ctx.monitor("rollout_wraps_observed", w)
         if not np.all(FR[k] == f0[k]):
